@@ -31,7 +31,7 @@ import os
 import re
 
 STATUS_CHARS = ".FEHS_puUP"
-_STEP = re.compile(r"^\s+(?:Given|When|Then|And|But|\*) (?:nodef |bad )?(fbg|rbg|own) (\d+) \.\.\. (\w+)(?: in [\d.]+s)?$")
+_STEP = re.compile(r"^\s+(?:Given|When|Then|And|But|\*) (?:with \S+ )?(?:nodef |bad )?(fbg|rbg|own) (\d+) \.\.\. (\w+)(?: in [\d.]+s)?$")
 _HEAD = re.compile(r"^\s+Scenario(?: Outline| Template)?: (.*)$")
 _NAME = re.compile(r"(fbg|rbg|own) (\d+)$")
 _P2 = re.compile(r"^(\S+\.feature)  ([%s]*)$" % re.escape(STATUS_CHARS))
